@@ -841,7 +841,7 @@ def _groups_file(out, kind):
 
 
 def run(chk):
-    proofs_ok = core.standard_proof_phase(chk, "C13")
+    proofs_ok = core.standard_proof_phase(chk, "C13", gen_needed=())
     logging.disable(logging.CRITICAL)
     if not proofs_ok and not (core.THEORIES / "Resubmit.vo").exists():
         return
